@@ -997,9 +997,33 @@ pub fn c20_process_part(ctx: &Ctx, scanned: &AtomicU64) -> Result<u64, String> {
             let _ = sp.wait_exit(Duration::from_secs(10));
             runs += 1;
             let mut files = 0;
-            if let Ok(rd) = std::fs::read_dir(&dir) {
-                for e in rd.flatten() {
-                    let p = e.path();
+            // everything below the persistence directory, at any depth; the NAMES of files and
+            // directories the server created are emitted output too
+            let mut all: Vec<PathBuf> = vec![];
+            let mut stack = vec![dir.clone()];
+            while let Some(d) = stack.pop() {
+                if let Ok(rd) = std::fs::read_dir(&d) {
+                    for e in rd.flatten() {
+                        let p = e.path();
+                        if p.is_dir() {
+                            stack.push(p.clone());
+                        }
+                        all.push(p);
+                    }
+                }
+            }
+            for p in &all {
+                if let Ok(rel) = p.strip_prefix(&dir) {
+                    let name = rel.display().to_string();
+                    // (the server's own configuration file and output files of this run live here too)
+                    if let Some(pt) = sc.scan(name.as_bytes()) {
+                        ctx.violation("secret-in-persisted-stats", pt.split('/').next().unwrap_or("?"), "file-or-directory-name", json!({"kind":"process","variant":"client-stats-persisted","source":format!("{:?}", src),"where":"name of a file or directory the server created","name":name,"pattern":pt}));
+                    }
+                }
+            }
+            {
+                for p in all.iter().filter(|p| p.is_file()) {
+                    let p = p.clone();
                     if p.extension().map(|x| x == "zst").unwrap_or(false) {
                         files += 1;
                         let raw = std::fs::read(&p).unwrap_or_default();
